@@ -63,5 +63,50 @@ def axisDiff (ev : List K) (coord : List K) : K :=
 def alignAxis (ev : List K) (coord : List K) : List K :=
   if axisDiff ev coord < 0 then ev.map (fun e => -e) else ev
 
+/-! ### the spectral embedding of `tria_spherical_project` (everything between `eigs` and the curvature flow) -/
+
+variable [HasAbs K]
+
+/-- mean position of the vertices selected by `sel` -/
+def meanPos (v : List (V3 K)) (sel : List Bool) : V3 K :=
+  ⟨meanSel (v.map (·.x)) sel, meanSel (v.map (·.y)) sel, meanSel (v.map (·.z)) sel⟩
+
+/-- `(cmax, cmin)` of an eigenfunction: mean position where `ev > 0.5 max(ev)` / where `ev < 0.5 min(ev)` -/
+def poles (v : List (V3 K)) (ev : List K) : V3 K × V3 K :=
+  let h : K := ((1 : Nat) : K) / ((2 : Nat) : K)
+  let mx := maxL ev; let mn := minL ev
+  (meanPos v (ev.map fun e => decide (h * mx < e)), meanPos v (ev.map fun e => decide (e < h * mn)))
+
+/-- map to `-1..0..+1` keeping the zero level: negative entries are divided by `-min`, positive ones by `max` -/
+def unitRange (ev : List K) : List K :=
+  let mn := minL ev; let mx := maxL ev
+  ev.map fun e => if e < 0 then e / (-mn) else if 0 < e then e / mx else e
+
+/-- the decisions of `tria_spherical_project` given the eigenfunctions 1..3 and the vertices: direction 1 must be the
+    y-axis (else `ValueError`), eigenfunctions 2 and 3 are swapped (together with their poles) when 3 is longer along z,
+    each is negated when it decreases along its axis, rescaled to `-1..1`; the new coordinates are `(ev3, ev1, ev2)`.
+    Returns the embedded vertices and `spatvol`. -/
+def embed (v : List (V3 K)) (e1 e2 e3 : List K) : Except String (List (V3 K) × K) :=
+  let (cmax1, cmin1) := poles v e1
+  let (cmax2, cmin2) := poles v e2
+  let (cmax3, cmin3) := poles v e3
+  let l11 := HasAbs.abs (cmax1.y - cmin1.y); let l21 := HasAbs.abs (cmax2.y - cmin2.y); let l31 := HasAbs.abs (cmax3.y - cmin3.y)
+  if l11 < l21 || l11 < l31 then .error "Direction 1 should be anterior - posterior" else
+  let v1 := cmax1 - cmin1
+  let e1 := if cmax1.y < cmin1.y then e1.map (fun e => -e) else e1
+  let l22 := HasAbs.abs (cmax2.z - cmin2.z); let l32 := HasAbs.abs (cmax3.z - cmin3.z)
+  let sw := decide (l22 < l32)
+  let (e2, e3) := if sw then (e3, e2) else (e2, e3)
+  let (cmax2, cmax3) := if sw then (cmax3, cmax2) else (cmax2, cmax3)
+  let (cmin2, cmin3) := if sw then (cmin3, cmin2) else (cmin2, cmin3)
+  let v2 := cmax2 - cmin2
+  let e2 := if cmax2.z < cmin2.z then e2.map (fun e => -e) else e2
+  let v3 := cmax3 - cmin3
+  let e3 := if cmax3.x < cmin3.x then e3.map (fun e => -e) else e3
+  let nrm := fun (w : V3 K) => smul (((1 : Nat) : K) / sqrt (normSq w)) w
+  let spatvol := HasAbs.abs (dot (nrm v1) (cross (nrm v2) (nrm v3)))
+  let u1 := unitRange e1; let u2 := unitRange e2; let u3 := unitRange e3
+  .ok ((u3.zip (u1.zip u2)).map (fun p => (⟨p.1, p.2.1, p.2.2⟩ : V3 K)), spatvol)
+
 end Flow
 end LapyVerif
